@@ -239,16 +239,22 @@ def check(ctx):
             continue
         seen = set()
         for p in ctx.paths(f):
-            for c in p.calls():
-                bi = c[4][1]
-                if c[4][0] != f.id or bi not in sites or bi in seen:
+            cands = []
+            for ev in p.events:
+                if ev[0] == "call" and len(ev[1][4]) == 2:
+                    cands.append((ev[1], ev[1][3], ev[1][4][0], ev[1][4][1]))
+                elif ev[0] == "inlined":
+                    # a call the walker saw through (a helper unknown to the rule base): its actual arguments
+                    cands.append((("call", ev[1], ev[1], ev[2], (f.id, ev[3])), ev[2], f.id, ev[3]))
+            for c, cargs, cfn, bi in cands:
+                if cfn != f.id or bi not in sites or bi in seen:
                     continue
                 seen.add(bi)
                 for ai in sites[bi]:
-                    if ai >= len(c[3]):
+                    if ai >= len(cargs):
                         continue
                     n_args += 1
-                    e = c[3][ai]
+                    e = cargs[ai]
                     ok = is_the_rng(ctx, f, e)
                     if not ok and (f.root or f.id) in GEN_FNS:
                         # the generation step is the one place that may create a generator (R16.1)
